@@ -54,8 +54,9 @@ def _candidates(rng, gene, coverage, structure, drop=0.0):
 def gen_aldy_major_solve_major_model_results(rng, ctx):
     """Integer read-count tables planted from allele multisets (1-4 copies, fused / deletion configurations
     included) whose copies lose or gain catalogue variants (so that novel variants are forced), multiplicative
-    noise up to 40%, a few stray reads on other core variants; gap in {0, 0.1, 0.5}."""
-    gene = stage_gene(rng, ctx, [("toy", 55), ("multi", 45)])
+    noise up to 40%, a few stray reads on other core variants; gap in {0, 0.1, 0.5}. The `delins` database adds an
+    allele whose core variant is a deletion-insertion."""
+    gene = stage_gene(rng, ctx, [("toy", 45), ("multi", 30), ("delins", 25)])
     profile = make_stage_profile(rng, ctx, gaps=(0.0, 0.0, 0.1, 0.5))
     structure = pick_structure(rng, gene)
     r = rng.random()
